@@ -17,7 +17,7 @@ from . import solve
 
 REPO = os.environ.get("VERIF_REPO", "/repo")
 
-LIB_MODULES = {"np": "np", "numpy": "np", "numba": "numba", "math": "math", "scipy": "scipy", "pd": "pd", "dask": "dask"}
+LIB_MODULES = {"np": "np", "numpy": "np", "pandas": "pd", "numba": "numba", "math": "math", "scipy": "scipy", "pd": "pd", "dask": "dask"}
 
 
 class ModInfo:
@@ -361,7 +361,8 @@ class Verifier(ExprMixin, StmtMixin, CallMixin, LibMixin, SpecMixin):
         self.fname = qn
         self.contract = dict(self.contracts[qn])
         if variant:
-            self.contract["params"] = dict(self.contract["params"], **variant)
+            key = "locals" if self.contract.get("segment") else "params"
+            self.contract[key] = dict(self.contract[key], **variant)
         self.obligations, self.counter, self.canaries = [], {}, []
         self.trusted, self.inlined, self.used_contracts = set(), set(), set()
         self.ufuncs, self.recfuns, self.call_count = {}, {}, {}
@@ -441,8 +442,9 @@ class Verifier(ExprMixin, StmtMixin, CallMixin, LibMixin, SpecMixin):
                 self.run_ghost(self.contract.get("ghost_exit"), s2)
                 # in postconditions a parameter name denotes the object passed in (python rebinding of the
                 # local name inside the body is not visible to the caller); its contents are the current ones
-                for pn, pv in self.entry_params.items():
-                    s2.vars[pn] = (pv, True)
+                if not self.contract.get("segment"):
+                    for pn, pv in self.entry_params.items():
+                        s2.vars[pn] = (pv, True)
                 s2.vars["result"] = (result, True)  # a local variable called `result` must not shadow the returned value
                 for i, e in enumerate(list(self.contract.get("ensures", [])) + list(self.contract.get("ensures_ghost", []))):
                     self.oblige(s2, "post", fdef, self.spec_bool(e, s2), "postcondition #%d: %s" % (i + 1, e))
